@@ -165,7 +165,7 @@ impl Monitor for C06 {
             let sender = step.op.sender().unwrap_or_default().to_string();
             let fm_owner = c.w.ownership(&c.w.a.fm).owner.map(|o| o.to_string()).unwrap_or_default();
             for f0 in pre.farms.iter() {
-                if post.farm(&f0.identifier).is_none() && f0.owner.as_str() != sender && fm_owner != sender && super::c09::farm_expired(&c.w, f0, now) == Some(false) {
+                if post.farm(&f0.identifier).is_none() && f0.owner.as_str() != sender && fm_owner != sender && super::c09::farm_expired(&c.w, f0, now) != Some(true) {
                     return Err(viol(
                         "C06.farm_closed_with_rewards_due",
                         format!("farm {} still owed {} {} and had not expired, but {} by {} closed it: unclaimed rewards of its users are void", f0.identifier, f0.farm_asset.amount.u128().saturating_sub(f0.claimed_amount.u128()), f0.farm_asset.denom, step.op.kind(), c.w.a.name(&sender)),
